@@ -452,6 +452,7 @@ func HMock(props ...string) *Harness {
 					}
 					out = append(out, Instance{Name: name, Run: func(ic *IC) *exec.Stats {
 						ic.StrBound = bound
+						ic.MaxPaths = 60000 // termination guard of the thorough tier: hitting it is reported as inconclusive
 						fn := env.Repo.Method(pkgMoq, "Mocker", "Mock")
 						st := ic.Explore(func(ex *exec.Exec) {
 							ex.User["focus"] = focusGroups[g]
